@@ -290,6 +290,7 @@ def run(prop, tier, replay=None):
     if tier != "thorough":
         bfam = rng.sample(bfam, min(len(bfam), 10))
     descs.extend(bfam)
+    descs.extend(gen.fixed_of_variable_descs())
     # alignment sweep: a scalar behind a u<k> prefix, k = 0..7
     sweep_widths = range(1, 65) if tier == "thorough" else rng.sample(range(1, 65), 8)
     for w in sweep_widths:
